@@ -1,7 +1,7 @@
 (* C16 — lemmas: walks go up the rank; on ranked heaps every change is edge-acyclic (the C08
    hypothesis holds trivially); on tree-shaped heaps every hook is expected at most once. *)
 From Coq Require Import List Arith Bool PeanoNat Permutation Lia.
-From TV Require Import Common.ObsCore C08.Model C08.Proofs C16.Model.
+From TV Require Import Common.ObsCore C08.Model C08.Law C08.Proofs C16.Model.
 Import ListNotations.
 
 Lemma visits_rank rank h o fo g : ranked rank h -> forall x, visits h g x o fo = true -> rank x <= rank o.
@@ -67,4 +67,323 @@ Proof.
       rewrite Nat.eqb_refl. reflexivity.
     + destruct (existsb _ names) eqn:Q; [|reflexivity]. apply existsb_exists in Q. destruct Q as [f' [_ Q]].
       rewrite (link_root_slot rank) in Q; [|exact R]. cbn in Q. discriminate.
+Qed.
+
+(* ---------- tree-shaped heaps: every hook is expected at most once ---------- *)
+Inductive reach (h : heap) : oid -> oid -> Prop :=
+| reach_refl x : reach h x x
+| reach_step x w f z : reach h x w -> In z (h w f) -> reach h x z.
+
+Lemma reach_cons h y f y' : In y' (h y f) -> forall z, reach h y' z -> reach h y z.
+Proof.
+  intros I z R. induction R as [|a w f' z R IH I'].
+  - eapply reach_step; [apply reach_refl|exact I].
+  - eapply reach_step; [apply IH; exact I|exact I'].
+Qed.
+
+Lemma rank_reach rank h : ranked rank h -> forall x z, reach h x z -> rank x <= rank z.
+Proof.
+  intros R x z Rz. induction Rz as [|a w f z Rz IH I]; [lia|]. pose proof (R w f z I). lia.
+Qed.
+
+(* ancestors of one object form a chain *)
+Lemma reach_chain h : unshared h -> forall a z, reach h a z -> forall b, reach h b z -> reach h a b \/ reach h b a.
+Proof.
+  intros [_ U] a z Ra. induction Ra as [a|a w f z Ra IH I]; intros b Rb.
+  - right. exact Rb.
+  - inversion Rb as [|b' w' f' z' Rb' I']; subst.
+    + left. eapply reach_step; eassumption.
+    + destruct (U w f w' f' z I I') as [-> _]. apply IH. exact Rb'.
+Qed.
+
+Definition gfield (g : graph) : fname := match g with G f _ _ => f end.
+
+(* where the hooks of a graph applied to x live: on slot (x, f) itself, or strictly below it *)
+Lemma region h k g : forall x z fz kd,
+  In (z, fz, kd) (expected h k g x) ->
+  (z = x /\ fz = gfield g) \/ (exists y, In y (h x (gfield g)) /\ reach h y z).
+Proof.
+  induction g as [f n cs IH] using graph_ind'. intros x z fz kd I. rewrite Forall_forall in IH.
+  cbn [expected gfield] in *. apply in_app_or in I. destruct I as [I|I].
+  - left. destruct n; [|destruct I]. destruct I as [E|[]]. inversion E. tauto.
+  - apply in_app_or in I. destruct I as [I|I].
+    + left. apply in_map_iff in I. destruct I as [c [E _]]. inversion E. tauto.
+    + right. apply in_flat_map in I. destruct I as [y [Hy I]]. apply in_flat_map in I. destruct I as [c [Hc I]].
+      exists y. split; [exact Hy|].
+      destruct (IH c Hc y z fz kd I) as [[-> _]|[y' [Hy' R]]]; [apply reach_refl|].
+      eapply reach_cons; eassumption.
+Qed.
+
+Lemma region_reach h k g x z fz kd : In (z, fz, kd) (expected h k g x) -> reach h x z.
+Proof.
+  intros I. destruct (region h k g x z fz kd I) as [[-> _]|[y [Hy R]]]; [apply reach_refl|].
+  eapply reach_cons; eassumption.
+Qed.
+
+Lemma NoDup_app_intro {A} (l l' : list A) :
+  NoDup l -> NoDup l' -> (forall x, In x l -> In x l' -> False) -> NoDup (l ++ l').
+Proof.
+  induction 1 as [|a l Na ND IH]; intros N' D; cbn [app]; [exact N'|].
+  constructor.
+  - intros I. apply in_app_or in I. destruct I as [I|I]; [contradiction|]. apply (D a); [left; reflexivity|exact I].
+  - apply IH; [exact N'|]. intros x I I'. apply (D x); [right; exact I|exact I'].
+Qed.
+
+Lemma NoDup_flat_map {A B} (F : A -> list B) l :
+  NoDup l -> (forall a, In a l -> NoDup (F a)) ->
+  (forall a b x, In a l -> In b l -> a <> b -> In x (F a) -> In x (F b) -> False) ->
+  NoDup (flat_map F l).
+Proof.
+  induction 1 as [|a l Na ND IH]; intros H1 H2; cbn [flat_map]; [constructor|].
+  apply NoDup_app_intro.
+  - apply H1. left. reflexivity.
+  - apply IH; [intros; apply H1; right; assumption|].
+    intros b c x Ib Ic. apply H2; right; assumption.
+  - intros x Ia Il. apply in_flat_map in Il. destruct Il as [b [Ib Ix]].
+    apply (H2 a b x); [left; reflexivity|right; exact Ib| |exact Ia|exact Ix].
+    intros ->. contradiction.
+Qed.
+
+Lemma NoDup_map_inj {A B} (g : A -> B) l a b :
+  NoDup (map g l) -> In a l -> In b l -> g a = g b -> a = b.
+Proof.
+  induction l as [|c l IH]; cbn; intros ND Ia Ib E; [destruct Ia|].
+  inversion ND as [|? ? Nc ND']; subst.
+  destruct Ia as [->|Ia], Ib as [->|Ib]; [reflexivity| | |apply IH; assumption].
+  - exfalso. apply Nc. rewrite E. apply in_map. exact Ib.
+  - exfalso. apply Nc. rewrite <- E. apply in_map. exact Ia.
+Qed.
+
+Lemma NoDup_of_map {A B} (g : A -> B) l : NoDup (map g l) -> NoDup l.
+Proof.
+  induction l as [|c l IH]; cbn; intros ND; [constructor|]. inversion ND; subst.
+  constructor; [|apply IH; assumption]. intros I. apply H1. apply in_map. exact I.
+Qed.
+
+Fixpoint all_distinct (cs : list graph) : Prop :=
+  match cs with [] => True | c :: l => distinct_fields c /\ all_distinct l end.
+Lemma distinct_fields_unfold f n cs :
+  distinct_fields (G f n cs) <-> NoDup (map gfield cs) /\ all_distinct cs.
+Proof.
+  cbn [distinct_fields]. fold gfield.
+  assert ((fix all (l : list graph) : Prop := match l with [] => True | c :: l' => distinct_fields c /\ all l' end) cs
+          = all_distinct cs) as E by (induction cs; cbn; congruence).
+  rewrite E. tauto.
+Qed.
+Lemma all_distinct_In cs c : all_distinct cs -> In c cs -> distinct_fields c.
+Proof. induction cs; cbn; [tauto|]. intros [A B] [->|I]; auto. Qed.
+
+Section Tree.
+  Variables (rank : oid -> nat) (h : heap) (k : hkey).
+  Hypothesis R : ranked rank h.
+  Hypothesis U : unshared h.
+
+  (* two sibling graphs with different fields, applied to the same object, share no hook *)
+  Lemma siblings_disjoint c1 c2 y hk :
+    gfield c1 <> gfield c2 -> In hk (expected h k c1 y) -> In hk (expected h k c2 y) -> False.
+  Proof.
+    intros NE I1 I2. destruct hk as [[z fz] kd].
+    destruct (region h k c1 y z fz kd I1) as [[E1 F1]|[y1 [Hy1 R1]]];
+      destruct (region h k c2 y z fz kd I2) as [[E2 F2]|[y2 [Hy2 R2]]].
+    - congruence.
+    - subst z. pose proof (R _ _ _ Hy2). pose proof (rank_reach rank h R _ _ R2). lia.
+    - subst z. pose proof (R _ _ _ Hy1). pose proof (rank_reach rank h R _ _ R1). lia.
+    - destruct (reach_chain h U y1 z R1 y2 R2) as [C|C].
+      + inversion C as [|a w f' b C' I']; subst.
+        * destruct U as [_ U2]. destruct (U2 _ _ _ _ _ Hy1 Hy2) as [_ E]. congruence.
+        * destruct U as [_ U2]. destruct (U2 _ _ _ _ _ I' Hy2) as [-> _].
+          pose proof (R _ _ _ Hy1). pose proof (rank_reach rank h R _ _ C'). lia.
+      + inversion C as [|a w f' b C' I']; subst.
+        * destruct U as [_ U2]. destruct (U2 _ _ _ _ _ Hy1 Hy2) as [_ E]. congruence.
+        * destruct U as [_ U2]. destruct (U2 _ _ _ _ _ I' Hy1) as [-> _].
+          pose proof (R _ _ _ Hy2). pose proof (rank_reach rank h R _ _ C'). lia.
+  Qed.
+
+  (* hooks below two different members of one slot are disjoint *)
+  Lemma members_disjoint x f y1 y2 z :
+    In y1 (h x f) -> In y2 (h x f) -> y1 <> y2 -> reach h y1 z -> reach h y2 z -> False.
+  Proof.
+    intros H1 H2 NE R1 R2. destruct U as [_ U2].
+    destruct (reach_chain h U y1 z R1 y2 R2) as [C|C]; inversion C as [|a w f' b C' I']; subst; try congruence.
+    - destruct (U2 _ _ _ _ _ I' H2) as [-> _]. pose proof (R _ _ _ H1). pose proof (rank_reach rank h R _ _ C'). lia.
+    - destruct (U2 _ _ _ _ _ I' H1) as [-> _]. pose proof (R _ _ _ H2). pose proof (rank_reach rank h R _ _ C'). lia.
+  Qed.
+
+  Lemma expected_NoDup g : distinct_fields g -> forall x, NoDup (expected h k g x).
+  Proof.
+    induction g as [f n cs IH] using graph_ind'. intros D x. rewrite Forall_forall in IH.
+    apply (proj1 (distinct_fields_unfold f n cs)) in D. destruct D as [DF DA].
+    cbn [expected]. apply NoDup_app_intro; [|apply NoDup_app_intro|].
+    - destruct n; [constructor; [intros []|constructor]|constructor].
+    - (* maintainers: one per child graph *)
+      apply FinFun.Injective_map_NoDup; [|apply (NoDup_of_map gfield); exact DF].
+      intros c1 c2 E. inversion E. reflexivity.
+    - (* below *)
+      apply NoDup_flat_map.
+      + destruct U as [U1 _]. apply U1.
+      + intros y Hy. apply NoDup_flat_map.
+        * apply (NoDup_of_map gfield). exact DF.
+        * intros c Hc. apply IH; [exact Hc|]. apply (all_distinct_In cs); assumption.
+        * intros c1 c2 hk H1 H2 NE I1 I2. apply (siblings_disjoint c1 c2 y hk); try assumption.
+          intros E. apply NE. apply (NoDup_map_inj gfield cs); assumption.
+      + intros y1 y2 hk H1 H2 NE I1 I2. destruct hk as [[z fz] kd].
+        apply in_flat_map in I1. destruct I1 as [c1 [_ I1]]. apply in_flat_map in I2. destruct I2 as [c2 [_ I2]].
+        apply (members_disjoint x f y1 y2 z H1 H2 NE); eapply region_reach; eassumption.
+    - (* maintainers vs below *)
+      intros hk I1 I2. apply in_map_iff in I1. destruct I1 as [c [<- _]].
+      apply in_flat_map in I2. destruct I2 as [y [Hy I2]]. apply in_flat_map in I2. destruct I2 as [c' [_ I2]].
+      apply region_reach in I2. pose proof (R _ _ _ Hy). pose proof (rank_reach rank h R _ _ I2). lia.
+    - (* user notifier vs the rest *)
+      intros hk I1 I2. destruct n; [|destruct I1]. destruct I1 as [<-|[]].
+      apply in_app_or in I2. destruct I2 as [I2|I2].
+      + apply in_map_iff in I2. destruct I2 as [c [E _]]. discriminate.
+      + apply in_flat_map in I2. destruct I2 as [y [Hy I2]]. apply in_flat_map in I2. destruct I2 as [c' [_ I2]].
+        apply region_reach in I2. pose proof (R _ _ _ Hy). pose proof (rank_reach rank h R _ _ I2). lia.
+  Qed.
+
+  Lemma expected_list_NoDup gs r :
+    NoDup (map gfield gs) -> all_distinct gs -> NoDup (flat_map (fun g => expected h k g r) gs).
+  Proof.
+    intros DF DA. apply NoDup_flat_map.
+    - apply (NoDup_of_map gfield). exact DF.
+    - intros g Hg. apply expected_NoDup. apply (all_distinct_In gs); assumption.
+    - intros g1 g2 hk H1 H2 NE I1 I2. apply (siblings_disjoint g1 g2 r hk); try assumption.
+      intros E. apply NE. apply (NoDup_map_inj gfield gs); assumption.
+  Qed.
+End Tree.
+
+(* ---------- the graphs of a legacy name ---------- *)
+Definition names_nodup (e : ename) : Prop := Forall (fun it : list fname * sep => NoDup (fst it)) e.
+
+Lemma gfield_link f n cs : gfield (link f n cs) = f.
+Proof. unfold link. destruct (is_container f); reflexivity. Qed.
+
+Lemma link_distinct f n cs : NoDup (map gfield cs) -> all_distinct cs -> distinct_fields (link f n cs).
+Proof.
+  intros DF DA. unfold link. destruct (is_container f).
+  - apply distinct_fields_unfold. split; [repeat constructor; intros []|]. cbn [all_distinct]. split; [|exact I].
+    apply distinct_fields_unfold. tauto.
+  - apply distinct_fields_unfold. tauto.
+Qed.
+
+Lemma legacy_distinct : forall e gs, names_nodup e -> legacy_to_graph e = Some gs ->
+  NoDup (map gfield gs) /\ all_distinct gs.
+Proof.
+  induction e as [|[names s] rest IH]; intros gs ND L; [discriminate|].
+  inversion ND as [|? ? Nn Nr]; subst. cbn [fst] in Nn.
+  destruct rest as [|it rest].
+  - cbn [legacy_to_graph] in L. destruct (forallb _ names); [|discriminate]. inversion L; subst gs. clear L. split.
+    + rewrite map_map. cbn [gfield]. rewrite map_id. exact Nn.
+    + clear. induction names; cbn; [exact I|]. split; [|assumption]. split; [constructor|exact I].
+  - change (legacy_to_graph ((names, s) :: it :: rest))
+      with (match legacy_to_graph (it :: rest) with
+            | Some cs => Some (map (fun f => link f (sep_notify s) cs) names) | None => None end) in L.
+    destruct (legacy_to_graph (it :: rest)) as [cs|] eqn:E; [|discriminate]. inversion L; subst gs. clear L.
+    destruct (IH cs Nr eq_refl) as [DF DA]. split.
+    + rewrite map_map. erewrite map_ext; [rewrite map_id; exact Nn|]. intros f. apply gfield_link.
+    + clear Nn ND. induction names; cbn; [exact I|]. split; [apply link_distinct; assumption|assumption].
+Qed.
+
+(* ---------- path multiplicity on trees ---------- *)
+Lemma expected_user_key h k g x z fz k' : In (z, fz, KUser k') (expected h k g x) -> k' = k.
+Proof.
+  intros I. apply (users_on_expected_key h k z fz g x k'). unfold users_on. apply in_flat_map.
+  exists (z, fz, KUser k'). split; [exact I|]. cbn. rewrite slot_eqb_refl. left. reflexivity.
+Qed.
+
+Lemma all_equal_length {A} (a : A) l : NoDup l -> (forall y, In y l -> y = a) -> length l <= 1.
+Proof.
+  intros ND E. destruct l as [|b [|c l]]; cbn; [lia|lia|exfalso].
+  inversion ND as [|? ? Nb _]; subst. apply Nb. left.
+  rewrite (E b (or_introl eq_refl)). rewrite (E c (or_intror (or_introl eq_refl))). reflexivity.
+Qed.
+
+Lemma user_hook_eqb_spec x f hk k :
+  (forall z fz k', hk = (z, fz, KUser k') -> k' = k) ->
+  user_hook_eqb x f hk = true -> hk = (x, f, KUser k).
+Proof.
+  destruct hk as [[z fz] kd]. intros K. cbn. rewrite andb_true_iff. intros [S Kd].
+  apply slot_eqb_true in S. destruct S as [-> ->]. destruct kd as [k'|]; [|discriminate].
+  rewrite (K x f k' eq_refl). reflexivity.
+Qed.
+
+Lemma path_count_le_1_lemma rank h k e gs r x f :
+  ranked rank h -> unshared h -> names_nodup e -> legacy_to_graph e = Some gs ->
+  path_count h k gs r x f <= 1.
+Proof.
+  intros R U ND L. destruct (legacy_distinct e gs ND L) as [DF DA].
+  unfold path_count. apply (all_equal_length (x, f, KUser k)).
+  - apply NoDup_filter. apply (expected_list_NoDup rank h k R U gs r DF DA).
+  - intros hk I. apply filter_In in I. destruct I as [I P]. apply (user_hook_eqb_spec x f hk k); [|exact P].
+    intros z fz k' ->. apply in_flat_map in I. destruct I as [g [_ I]]. eapply expected_user_key. exact I.
+Qed.
+
+Lemma path_count_pos h k gs r x f :
+  0 < path_count h k gs r x f <-> existsb (fun g => matched h g r x f) gs = true.
+Proof.
+  unfold path_count. split.
+  - intros P. destruct (filter _ _) as [|hk l] eqn:E; [cbn in P; lia|].
+    assert (In hk (filter (user_hook_eqb x f) (flat_map (fun g => expected h k g r) gs))) as I
+      by (rewrite E; left; reflexivity).
+    apply filter_In in I. destruct I as [I Q]. apply in_flat_map in I. destruct I as [g [Hg I]].
+    apply existsb_exists. exists g. split; [exact Hg|].
+    apply (users_on_expected h k x f g r). destruct hk as [[z fz] kd]. cbn in Q.
+    apply andb_true_iff in Q. destruct Q as [S Kd]. destruct kd as [k'|]; [|discriminate].
+    exists k'. unfold users_on. apply in_flat_map. exists (z, fz, KUser k'). split; [exact I|].
+    cbn. rewrite S. left. reflexivity.
+  - intros M. apply existsb_exists in M. destruct M as [g [Hg M]].
+    apply (users_on_expected h k x f g r) in M. destruct M as [u Iu]. unfold users_on in Iu.
+    apply in_flat_map in Iu. destruct Iu as [[[z fz] kd] [I Q]]. cbn in Q.
+    destruct (slot_eqb z fz x f) eqn:S; [|destruct Q]. destruct kd as [k'|]; [|destruct Q].
+    assert (In (z, fz, KUser k') (filter (user_hook_eqb x f) (flat_map (fun g => expected h k g r) gs))) as F.
+    { apply filter_In. split; [apply in_flat_map; exists g; split; assumption|]. cbn. rewrite S. reflexivity. }
+    destruct (filter _ _); [destruct F|cbn; lia].
+Qed.
+
+Lemma count_key_nodup k l : NoDup l ->
+  length (filter (hkey_eqb k) l) = if mem_key k l then 1 else 0.
+Proof.
+  induction 1 as [|a l Na ND IH]; [reflexivity|]. cbn [filter mem_key].
+  destruct (hkey_eqb k a) eqn:Q.
+  - apply hkey_eqb_spec in Q. subst a. cbn [orb length]. rewrite IH.
+    destruct (mem_key k l) eqn:M; [apply mem_key_In in M; contradiction|reflexivity].
+  - cbn [orb]. exact IH.
+Qed.
+
+Lemma legacy_eq_observe_lemma rank st o x f e gs k :
+  inv st -> op_hyp st o = true -> notified st o = Some (x, f) ->
+  ranked rank (st_heap st) -> unshared (st_heap st) ->
+  names_nodup e -> legacy_to_graph e = Some gs -> st_regs st = map (pair k) gs ->
+  length (filter (hkey_eqb k) (map call_key (ob_calls (snd (step st o)))))
+  = path_count (st_heap st) k gs (snd k) x f.
+Proof.
+  intros I Hy N R U ND L RG. pose proof (step_spec st o I Hy) as S. unfold step_ok in S.
+  destruct (step st o) as [st' ob]. rewrite N in S. destruct S as [_ [_ [NDk [Sp _]]]]. cbn [snd].
+  rewrite (count_key_nodup k _ NDk).
+  pose proof (path_count_le_1_lemma rank (st_heap st) k e gs (snd k) x f R U ND L) as LE.
+  pose proof (path_count_pos (st_heap st) k gs (snd k) x f) as POS.
+  destruct (mem_key k (map call_key (ob_calls ob))) eqn:M.
+  - apply mem_key_In in M. apply Sp in M. destruct M as [g [Hg Mg]]. rewrite RG in Hg.
+    apply in_map_iff in Hg. destruct Hg as [g' [E Hg']]. inversion E; subst g'.
+    assert (existsb (fun g => matched (st_heap st) g (snd k) x f) gs = true) as X
+      by (apply existsb_exists; exists g; split; assumption).
+    apply POS in X. lia.
+  - destruct (existsb (fun g => matched (st_heap st) g (snd k) x f) gs) eqn:X.
+    + exfalso. apply existsb_exists in X. destruct X as [g [Hg Mg]].
+      assert (In k (map call_key (ob_calls ob))) as IK.
+      { apply Sp. exists g. split; [rewrite RG; apply in_map; exact Hg|exact Mg]. }
+      apply mem_key_In in IK. congruence.
+    + assert (~ 0 < path_count (st_heap st) k gs (snd k) x f) as NZ
+        by (intros Z; apply POS in Z; congruence).
+      lia.
+Qed.
+
+Lemma remove_stops_calls_lemma st o k :
+  inv st -> op_hyp st o = true -> (forall g, ~ In (k, g) (st_regs st)) ->
+  ~ In k (map call_key (ob_calls (snd (step st o)))).
+Proof.
+  intros I Hy NR. pose proof (step_spec st o I Hy) as S. unfold step_ok in S.
+  destruct (step st o) as [st' ob]. cbn [snd]. destruct (notified st o) as [[x f]|].
+  - destruct S as [_ [_ [_ [Sp _]]]]. intros IK. apply Sp in IK. destruct IK as [g [Hg _]]. apply (NR g Hg).
+  - destruct S as [_ [_ ->]]. intros [].
 Qed.
